@@ -261,10 +261,24 @@ def r12c(ctx):
             rest_none = all(x == NONE for x in elts[1:])
             n_in = len(fwd.params) - 1 if not fwd.node.args.vararg else None
             count_ok = n_in is None or len(elts) >= n_in
-            ok = dep and rest_none and count_ok and first != NONE
+            # ... with its sign: a straight-through estimator of a non-decreasing step passes
+            # a non-negative multiple of the incoming gradient (a negated gradient makes the
+            # optimiser grow what the cost should shrink)
+            flipped = False
+            try:
+                from ..numdom import AV, INF, NumError, NumEval
+                gv = NumEval(repo, lambda t, g=('param', gparam):
+                             AV(-INF, INF, {'g': 1})
+                             if t == g or (t[0] == 'sub' and t[1] == g) else None).ev(first)
+                flipped = gv.d('g') == -1 or (gv.lo == 0 and gv.hi == 0)
+            except Exception:       # noqa: BLE001  (outside the numeric domain: not judged)
+                flipped = False
+            ok = dep and rest_none and count_ok and first != NONE and not flipped
             ctx.ob('R12c', f'{c.module.name.split(".")[-1]}.{c.name}.backward', ok,
                    'gradient of the size argument is the incoming gradient; others None' if ok
-                   else f'backward returns {short(r)}: the first value must depend on '
+                   else (f'backward returns {short(r)}: the gradient of the size argument is '
+                         f'not a positive multiple of the incoming gradient (negated or zeroed)' if flipped else '') or
+                   f'backward returns {short(r)}: the first value must depend on '
                    f'grad_output (the straight-through gradient of the size argument), the others '
                    f'must be None, one per forward input', where(bwd))
     # gradient-cutting operations on the PIT cost path
